@@ -472,6 +472,22 @@ def run(ctx: Ctx) -> None:
 
 
 def replay(rep: dict) -> int:
-    print(json.dumps(rep["witness"].get("meta"), indent=1))
-    print(rep["witness"].get("events"))
-    return 1
+    w = rep["witness"]
+    print(json.dumps(w.get("meta"), indent=1))
+    if "desc" not in w or "crash" not in (w.get("meta") or {}):     # protocol traces / changed-input histories: show only
+        print(w.get("events") or w.get("ops"))
+        return 1
+    logdir = tempfile.mkdtemp(prefix="pfverif_c05replay_")
+    try:
+        scen = {"desc": w["desc"], "inputs": w["inputs"]}
+        t = history(scen, pmap.tla_desc_to_py(w["desc"]), w["meta"]["storage"], w["meta"]["crash"], logdir,
+                    resume=w["meta"].get("resume", "map"))
+    finally:
+        shutil.rmtree(logdir, ignore_errors=True)
+    print([(x["e"], x["f"], x.get("cls", "")) for x in t["ev"]])
+    ctx = Ctx(PROPERTY, "quick", 0)
+    ctx.findings = []
+    rej = validate_traces(ctx, "TraceMapRun", [t], "replay", invariants=[], strip=STRIP, count=False)
+    ctx.cleanup()
+    print("replay:", "VIOLATION reproduced" if rej else "history accepted")
+    return 1 if rej else 0
